@@ -246,7 +246,7 @@ def gen_oracle_case(rng):
 
 def gen_corr_case(rng):
     """cases for the model: paths of the two modelled strategies, positional predicates included"""
-    c = G.rand_case(rng, hints=True, pos=rng.random() < 0.4, late=0.2, gen_markup=0.2, kinds=('single', 'simple'), maxsel=2)
+    c = G.rand_case(rng, hints=True, pos=rng.random() < 0.4, late=0.2, gen_markup=0.2, maxsel=2)
     if rng.random() < 0.7:
         # mostly inside the documented use of buffer="false" (one select); the rest checks that the model
         # also follows the code when a second select() finds the lazily consumed content exhausted
